@@ -360,18 +360,33 @@ def decodeFields (u : Uni) (cfg : TimeCfg) (g : TimeGroups) : Except String (Opt
       let (second, hasSeconds) ← (if !blank u g.sec then do pure ((← intOf u g.sec), true) else pure ((0 : Int), false))
       return some { hour := hour, minute := minute, second := second, hasMinute := hasMinute, hasSeconds := hasSeconds }
 
+/-- "adjust by desc string": (hour, has_am, has_pm) after the am / pm description and implicit-am/pm groups. -/
+def descAdjust (g : TimeGroups) (hour : Int) : Int × Bool × Bool :=
+  if g.amDesc || g.amPmDesc || !g.implAm.isEmpty then
+    ((if hour ≥ 12 then hour - 12 else hour), !g.amPmDesc, false)
+  else if g.pmDesc || !g.implPm.isEmpty then
+    ((if hour < 12 then hour + 12 else hour), false, true)
+  else (hour, false, false)
+
+/-- The tail of `match_to_time`: hour 24 → 0, TIMEX assembly, the `ampm` comment, the value. -/
+def assembleTime (ref : DT) (hour minute second : Int) (hasMinute hasSeconds hasAm hasPm hasMid : Bool) :
+    Except String Res :=
+  let hour := if hour = 24 then 0 else hour
+  let timex := 84 :: fmtD 2 hour
+  let timex := if hasMinute then timex ++ sColon ++ fmtD 2 minute else timex
+  let timex := if hasSeconds then timex ++ sColon ++ fmtD 2 second else timex
+  let comment := if 0 < hour ∧ hour ≤ 12 ∧ !hasPm ∧ !hasAm ∧ !hasMid then sAmPm else []
+  match mkDateTime ref.y ref.m ref.d hour minute second with
+  | none => .error "ValueError"
+  | some v => .ok { success := true, timex := timex, comment := comment, future := v, past := v }
+
 /-- `match_to_time(match, reference)` on the group values. -/
 def matchToTime (u : Uni) (cfg : TimeCfg) (g : TimeGroups) (ref : DT) : Except String Res := do
   match (← decodeFields u cfg g) with
   | none => return {}
   | some f =>
     -- adjust by desc string
-    let (hour, hasAm, hasPm) : Int × Bool × Bool :=
-      if g.amDesc || g.amPmDesc || !g.implAm.isEmpty then
-        ((if f.hour ≥ 12 then f.hour - 12 else f.hour), !g.amPmDesc, false)
-      else if g.pmDesc || !g.implPm.isEmpty then
-        ((if f.hour < 12 then f.hour + 12 else f.hour), false, true)
-      else (f.hour, false, false)
+    let (hour, hasAm, hasPm) := descAdjust g f.hour
     -- adjust min by prefix
     let (hour, minute, hasMinute) ← (
       if !blank u g.pfx then do
@@ -383,14 +398,7 @@ def matchToTime (u : Uni) (cfg : TimeCfg) (g : TimeGroups) (ref : DT) : Except S
       if !blank u g.sfx then
         cfg.adjustBySuffix g.sfx { hour := hour, minute := minute, hasMinute := hasMinute, hasAm := hasAm, hasPm := hasPm }
       else pure { hour := hour, minute := minute, hasMinute := hasMinute, hasAm := hasAm, hasPm := hasPm })
-    let hour := if a.hour = 24 then 0 else a.hour
-    let timex := 84 :: fmtD 2 hour
-    let timex := if a.hasMinute then timex ++ sColon ++ fmtD 2 a.minute else timex
-    let timex := if f.hasSeconds then timex ++ sColon ++ fmtD 2 f.second else timex
-    let comment := if 0 < hour ∧ hour ≤ 12 ∧ !a.hasPm ∧ !a.hasAm ∧ !f.hasMid then sAmPm else []
-    match mkDateTime ref.y ref.m ref.d hour a.minute f.second with
-    | none => throw "ValueError"
-    | some v => return { success := true, timex := timex, comment := comment, future := v, past := v }
+    assembleTime ref a.hour a.minute f.second a.hasMinute f.hasSeconds a.hasAm a.hasPm f.hasMid
 
 /-- The pure number-word branch of `BaseTimeParser.parse_basic_regex_match` (`numbers.get(source, -1)` with
 `0 <= hour <= 24`); `none` = the branch is not taken. -/
